@@ -116,12 +116,12 @@ def parseTbl (s : String) : List (PStr × PStr) :=
 def substOf (kind : Nat) (tbl : List (PStr × PStr)) : Option (PStr → PStr) :=
   if kind = 0 then none
   else if kind = 1 then some substXml
-  else if kind = 2 then some (BS.Entities.substHtml BS.Gen.htmlTable)      -- C09's model of substitute_html
-  else if kind = 3 then some (BS.Entities.substHtml5 BS.Gen.htmlTable)     -- C09's model of substitute_html5
+  else if kind = 2 then some (BS.Entities.substHtml BS.Gen.C09.htmlTable)      -- C09's model of substitute_html
+  else if kind = 3 then some (BS.Entities.substHtml5 BS.Gen.C09.htmlTable)     -- C09's model of substitute_html5
   else some fun s => (lookupL tbl s).getD [63, 33]
 
 def fmtEnv (tbl : List (PStr × PStr)) : FmtEnv :=
-  ⟨BS.Gen.Render.registryOf, BS.Gen.Render.ctorDefaults, fun k => substOf k tbl⟩
+  ⟨BS.Gen.C05.registryOf, BS.Gen.C05.ctorDefaults, fun k => substOf k tbl⟩
 
 def parseChain (s : String) : List (Option Bool) :=
   (splitNE "." s).map fun t => if t == "T" then some true else if t == "F" then some false else none
@@ -135,7 +135,7 @@ def parseArg (s : String) (tbl : List (PStr × PStr)) : Option FmtArg :=
   | _ => none
 
 def findSpec (flavour : String) (fmt : String) : Option FmtSpec :=
-  let reg := if flavour == "x" then BS.Gen.Render.xmlRegistry else BS.Gen.Render.htmlRegistry
+  let reg := if flavour == "x" then BS.Gen.C05.xmlRegistry else BS.Gen.C05.htmlRegistry
   let key : Option PStr := if fmt == "none" then none else some (cps fmt)
   (reg.find? (fun e => e.1 == key)).map (·.2)
 
@@ -150,7 +150,7 @@ def tagsOfL : List Node → List Node
   | n :: ns => tagsOf n ++ tagsOfL ns
 end
 
-def ci := BS.Gen.Render.liveClsInfo
+def ci := BS.Gen.C05.liveClsInfo
 
 def renderAll (spec : Bool) (f : Fmt) (root : Node) : String :=
   " | ".intercalate ((tagsOf root).map fun n =>
@@ -169,7 +169,7 @@ def showEv : TEv → String
   | .special c s => s!"P/{codeOf c}/{dots s}"
 
 def trip (f : Fmt) (root : Node) : String :=
-  let p := BS.Gen.Render.livePCfg
+  let p := BS.Gen.C05.livePCfg
   let ds := root.kids
   let evs := emitRL f ds
   let nrm := normaliseL p f ds
